@@ -156,6 +156,8 @@ def make_rfft_factors(axes, resshape, facshape, normshape, norm):
     else:
         index[axes[-1]] = (0,)
     fac[tuple(index)] = 1
-    if norm is None:
+    if norm is None or norm == "backward":
         fac /= N
+    elif norm == "forward":
+        fac *= N
     return fac
